@@ -81,10 +81,12 @@ type Step struct {
 
 // Op is one scenario operation.
 type Op struct {
-	K       string   `json:"k"` // tx | block | restart
+	K       string   `json:"k"` // tx | block | restart | crash
 	Tx      *TxOp    `json:"tx,omitempty"`
 	Block   *BlockOp `json:"block,omitempty"`
 	Replica int      `json:"replica,omitempty"`
+	// Crash arms a crash of one replica inside the next block (chain-level C07, see crash.go).
+	Crash *CrashOp `json:"crash,omitempty"`
 }
 
 // PendingTx is a transaction in the simulated mempools.
@@ -148,6 +150,8 @@ type Sim struct {
 	callCount map[int]int
 	steps     []Step
 	histTrees []mkvs.Tree
+	// cc is the chain-level crash state (C07 chaincrash batch; nil-valued and inert otherwise).
+	cc chainCrash
 }
 
 // Ref returns a replica that is up and at the tip.
@@ -308,6 +312,7 @@ func (e Engine) Execute(sc *core.Scenario, st *core.Stats) (*core.Violation, boo
 				_ = pv
 			}
 		}
+		s.stopPhoenixes()
 	}()
 	reps := append([]ReplicaConfig{}, k.Replicas...)
 	if needsObserver[e.Prop] {
@@ -352,6 +357,8 @@ func (e Engine) Execute(sc *core.Scenario, st *core.Stats) (*core.Violation, boo
 			blocks++
 		case "restart":
 			v = s.restart(op.Replica%len(s.Reps), opIdx)
+		case "crash":
+			s.armCrashOp(op.Crash)
 		default:
 			core.Harnessf("chain: unknown op %q", op.K)
 		}
@@ -857,19 +864,9 @@ func (s *Sim) produceBlock(opIdx int, b *BlockOp) *core.Violation {
 	// Execution paths.
 	var refRes *BlockResult
 	nPaths := map[string]bool{}
+	crashTarget := s.crashTarget(b, p)
 	for _, r := range s.Reps {
-		path := 0
-		if r.Idx < len(b.Paths) {
-			path = b.Paths[r.Idx]
-		}
-		if r == p {
-			if path == 2 || path == 3 {
-				path = 0
-			}
-		}
-		if r.Cfg.Observer {
-			path = 1
-		}
+		path := pathOf(b, r, p)
 		if !r.Up {
 			continue
 		}
@@ -918,7 +915,13 @@ func (s *Sim) produceBlock(opIdx int, b *BlockOp) *core.Violation {
 		nPaths[name] = true
 		s.St.Inc("probe.path_" + strings.ReplaceAll(name, " ", "_"))
 		var res *BlockResult
+		if r == crashTarget {
+			s.beginCrash(r, h)
+		}
 		pv, stack := core.Guard(func() { res = r.Apply(cp, commit) })
+		if r == crashTarget {
+			s.endCrash(r, pv == nil && res != nil && res.Err == nil)
+		}
 		if pv != nil {
 			return s.panicViolation("ApplyBlock", r, pv, stack)
 		}
@@ -981,7 +984,26 @@ func (s *Sim) produceBlock(opIdx int, b *BlockOp) *core.Violation {
 			return v
 		}
 	}
-	return nil
+	return s.phoenixAfterBlock(h, refRes)
+}
+
+// pathOf returns the execution path of a replica for a block (0 process+apply, 1 plain apply,
+// 2 offline, 3 restart then apply); the proposer always takes part and the observer always
+// executes on the plain path.
+func pathOf(b *BlockOp, r, proposer *Replica) int {
+	path := 0
+	if r.Idx < len(b.Paths) {
+		path = b.Paths[r.Idx]
+	}
+	if r == proposer {
+		if path == 2 || path == 3 {
+			path = 0
+		}
+	}
+	if r.Cfg.Observer {
+		path = 1
+	}
+	return path
 }
 
 // makeEvidence builds real duplicate-vote evidence against a validator of the last height.
